@@ -12,8 +12,8 @@ EXTENDS Pool, Json, IOUtils
 
 Trace == ndJsonDeserialize(IOEnv.TRACE_FILE)
 
-VARIABLES P, l, tid, dead, nbad, njudged, nreused, kind
-tvars == <<P, l, tid, dead, nbad, njudged, nreused, kind>>
+VARIABLES P, l, tid, dead, nbad, njudged, nreused, kind, ncyc
+tvars == <<P, l, tid, dead, nbad, njudged, nreused, kind, ncyc>>
 
 TypeBits(k) ==
     CASE k \in {"int8", "uint8"} -> 8
@@ -32,10 +32,23 @@ Empty == NewPool([ch |-> 0, l |-> 0, k |-> 0], {})
 
 Bad(e, cls, exp, got) ==
     /\ PrintT(<<"MISMATCH", l, tid, e.op, cls, exp, got, FALSE>>)
-    /\ dead' = TRUE /\ nbad' = nbad + 1 /\ UNCHANGED <<P, tid, njudged, nreused, kind>>
-Good(PP) == P' = PP /\ njudged' = njudged + 1 /\ UNCHANGED <<dead, tid, nbad, kind>>
+    /\ dead' = TRUE /\ nbad' = nbad + 1 /\ UNCHANGED <<P, tid, njudged, nreused, kind, ncyc>>
+Good(PP) == P' = PP /\ njudged' = njudged + 1 /\ UNCHANGED <<dead, tid, kind>>
 
-Init == P = Empty /\ l = 1 /\ tid = 0 /\ dead = FALSE /\ nbad = 0 /\ njudged = 0 /\ nreused = 0 /\ kind = "int8"
+Init == P = Empty /\ l = 1 /\ tid = 0 /\ dead = FALSE /\ nbad = 0 /\ njudged = 0 /\ nreused = 0 /\ kind = "int8" /\ ncyc = 0
+
+(* C18: a warmed-up get/put cycle with one buffer outstanding performs no allocation.  The budget is a  *)
+(* function of the model state: -1 (unconstrained) for a Get that misses, for the first cycles (sync.Pool *)
+(* sets up its per-P storage) and whenever another buffer is outstanding.                                 *)
+Warm == ncyc >= 3
+NoneHeld == \A g \in DOMAIN P.held : P.held[g] = {}
+OnlyHeld(id) == \A g \in DOMAIN P.held : P.held[g] \subseteq {id}
+Budget(e) == IF e.op = "Get" /\ e.reused = 1 /\ Warm /\ NoneHeld THEN 0
+             ELSE IF e.op = "Put" /\ Warm /\ OnlyHeld(e.id) THEN 0 ELSE -1
+OverBudget(e) == e.allocs >= 0 /\ Budget(e) >= 0 /\ e.allocs > Budget(e)
+CountAlloc(e) == IF OverBudget(e)
+                 THEN PrintT(<<"MISMATCH", l, tid, e.op, "alloc", Budget(e), e.allocs, FALSE>>) /\ nbad' = nbad + 1
+                 ELSE UNCHANGED nbad
 
 Step(e) ==
     CASE e.op = "Get" ->
@@ -47,32 +60,32 @@ Step(e) ==
                 IF ViewOf(PP, e.id, kind) # e.view
                 THEN /\ PrintT(<<"EXPECTED", l, ViewOf(PP, e.id, kind)>>)
                      /\ Bad(e, "stale", "fresh", IF e.reused = 1 THEN "reused" ELSE "new")
-                ELSE Good(PP) /\ nreused' = nreused + e.reused
+                ELSE Good(PP) /\ nreused' = nreused + e.reused /\ CountAlloc(e) /\ UNCHANGED ncyc
       [] e.op \in {"Use", "Check"} ->
            IF e.g \notin DOMAIN P.held \/ e.id \notin P.held[e.g] THEN Bad(e, "args", "-", "-")
            ELSE LET PP == IF e.op = "Check" THEN P ELSE UseF(P, e.id, e.kind, e.a) IN
                 IF ViewOf(PP, e.id, kind) # e.view
                 THEN /\ PrintT(<<"EXPECTED", l, ViewOf(PP, e.id, kind)>>)
                      /\ Bad(e, "use", "ok", e.kind)
-                ELSE Good(PP) /\ UNCHANGED nreused
+                ELSE Good(PP) /\ UNCHANGED <<nreused, nbad, ncyc>>
       [] e.op = "Put" ->
            IF e.g \notin DOMAIN P.held \/ e.id \notin P.held[e.g] THEN Bad(e, "args", "-", "-")
            ELSE IF e.res # "ok" THEN Bad(e, "res", "ok", e.res)
-           ELSE Good(PutF(P, e.g, e.id)) /\ UNCHANGED nreused
+           ELSE Good(PutF(P, e.g, e.id)) /\ UNCHANGED nreused /\ CountAlloc(e) /\ ncyc' = ncyc + 1
       [] e.op = "PutForeign" ->        \* C15: wrong total capacity must panic and modify nothing
            LET exp == IF e.cap = CapOf(P.alloc) THEN "ok" ELSE "panic" IN
            IF e.res # exp THEN Bad(e, "res", exp, e.res)
            ELSE IF exp = "panic" /\ e.view # e.before THEN Bad(e, "self", "panic", "panic")
-           ELSE IF exp = "ok" THEN dead' = TRUE /\ UNCHANGED <<P, tid, nbad, njudged, nreused, kind>>  \* foreign buffer entered the pool: rest unjudged
-           ELSE Good(P) /\ UNCHANGED nreused
+           ELSE IF exp = "ok" THEN dead' = TRUE /\ UNCHANGED <<P, tid, nbad, njudged, nreused, kind, ncyc>>  \* foreign buffer entered the pool: rest unjudged
+           ELSE Good(P) /\ UNCHANGED <<nreused, nbad, ncyc>>
 
 Next ==
     /\ l <= Len(Trace) /\ l' = l + 1
     /\ LET e == Trace[l] IN
        IF e.op = "NewPool"
        THEN /\ P' = NewPool([ch |-> e.ch, l |-> e.l, k |-> e.k], 1..e.procs)
-            /\ kind' = e.kind /\ tid' = e.tid /\ dead' = FALSE /\ UNCHANGED <<nbad, njudged, nreused>>
-       ELSE IF dead THEN UNCHANGED <<P, tid, dead, nbad, njudged, nreused, kind>>
+            /\ kind' = e.kind /\ tid' = e.tid /\ dead' = FALSE /\ ncyc' = 0 /\ UNCHANGED <<nbad, njudged, nreused>>
+       ELSE IF dead THEN UNCHANGED <<P, tid, dead, nbad, njudged, nreused, kind, ncyc>>
        ELSE Step(e)
 
 Spec == Init /\ [][Next]_tvars
